@@ -77,7 +77,7 @@ def ev_len(cx_, node, sym, parity):
             return a_ + b_
         if op == "-":
             return a_ - b_
-        if op == "/" and b_.is_const() and b_.get((), 0) == 2:
+        if (op == "/" and b_.is_const() and b_.get((), 0) == 2) or (op == ">>" and b_.is_const() and b_.get((), 0) == 1):
             # floor((2k + p + 2c)/2): coefficients of k even, constant floored
             if all(v_.denominator == 1 and int(v_) % 2 == 0 for kk, v_ in a_.items() if kk != ()):
                 c0 = a_.get((), 0)
@@ -1000,6 +1000,7 @@ def rules(rep, m):
                   "passes a length that is provably >= 1 (lengths derived from the sample count by halving are evaluated per "
                   "parity; obligations decided by Fourier-Motzkin elimination)", floor=5)
     dm = m.need("data_array_median")
+    dmx = FuncCtx(m, dm)
     nn, vv = dm.params[0]["name"], dm.params[1]["name"]
 
     # inside the helper
@@ -1010,21 +1011,22 @@ def rules(rep, m):
         for x in walk(dm.body):
             if x["kind"] != "ArraySubscriptExpr" or render(strip(kids(x)[0], casts=True)) != vv or is_assert_stmt_anc(dm, x):
                 continue
-            conds = [render(kids(a)[0]) for a in inv.enclosing_chain(dm, x) if a["kind"] == "IfStmt"]
-            chain = [a for a in inv.enclosing_chain(dm, x) if a["kind"] == "IfStmt"]
             feasible = True
-            for a in chain:
-                c_ = _norm(render(kids(a)[0]))
-                in_then = any(y is x for y in walk(kids(a)[1]))
-                if c_ in ("%s%%2==0" % nn,):
-                    feasible = feasible and ((parity == 0) == in_then)
-                elif c_ in ("%s%%2!=0" % nn, "%s%%2==1" % nn, "%s%%2" % nn):
-                    feasible = feasible and ((parity == 1) == in_then)
+            for cd in inv.dominating_conditions(dmx, dm, x):
+                neg = cd.startswith("!")
+                c_ = _norm(cd[1:] if neg else cd)
+                if c_ in ("%s%%2==0" % nn, "%s&1==0" % nn):
+                    even = True
+                elif c_ in ("%s%%2!=0" % nn, "%s%%2==1" % nn, "%s%%2" % nn, "%s&1!=0" % nn, "%s&1==1" % nn, "%s&1" % nn):
+                    even = False
                 else:
                     raise AnalysisBroken("data_array_median: branch condition %s not understood" % c_)
+                if neg:
+                    even = not even
+                feasible = feasible and ((parity == 0) == even)
             if not feasible:
                 continue
-            idx = ev_len(None, kids(x)[1], lambda n_: n_["kind"] == "DeclRefExpr" and n_["ref"]["name"] == nn, parity)
+            idx = ev_len(dmx, kids(x)[1], lambda n_: n_["kind"] == "DeclRefExpr" and n_["ref"]["name"] == nn, parity)
             if idx is None:
                 raise AnalysisBroken("data_array_median: index %s not understood" % render(kids(x)[1]))
             lo = base.proves_le0(idx.scale(-1))
@@ -1041,8 +1043,11 @@ def rules(rep, m):
         cx = FuncCtx(m, f)
         is_count = lambda n_: n_["kind"] == "MemberExpr" and n_.get("name") == "count"
         chain = [a for a in inv.enclosing_chain(f, c) if a["kind"] == "IfStmt"]
-        nodata_guard = any(re.fullmatch(r"\(\S+(->|\.)xa != NULL\)", cx.canon(kids(a)[0])) and any(y is c for y in walk(kids(a)[1]))
-                           for a in chain)
+        dcn = inv.dominating_cond_nodes(f, c)
+        nodata_guard = any(cd in inv.dominating_conditions(cx, f, c) for cd in
+                           [t_ % x_ for x_ in {re.sub(r"(->|\.)count$", "", cx.canon(kids(c)[1]))} | {f.params[0]["name"]} | {"dsp", "tsp"}
+                            for t_ in ("(%s->xa != NULL)", "!(%s->xa == NULL)", "(%s.xa != NULL)", "!(%s.xa == NULL)")]) or \
+            any(re.fullmatch(r"\(\S+(->|\.)xa != NULL\)|!\(\S+(->|\.)xa == NULL\)", cd) for cd in inv.dominating_conditions(cx, f, c))
         proved = True
         detail = []
         for parity in (0, 1):
@@ -1050,20 +1055,22 @@ def rules(rep, m):
             facts = Facts().add_le0(Poly.sym("k").scale(-1), "k >= 0")
             if nodata_guard:
                 facts = facts.add_le0(Poly.const(1) - (Poly.sym("k").scale(2) + Poly.const(parity)), "count >= 1 (there are data)")
-            for a in chain:
-                c_ = _norm(cx.canon(kids(a)[0]))
-                in_then = any(y is c for y in walk(kids(a)[1]))
-                mm = re.fullmatch(r"\S+(->|\.)count%2==0", c_)
-                if mm:
-                    feasible = feasible and ((parity == 0) == in_then)
+            for cn0, truth in dcn:
+                cn = cx.resolve(cn0)
+                c_ = _norm(cx.canon(cn))
+                if re.fullmatch(r"\S+(->|\.)count%2==0|\S+(->|\.)count&1==0", c_) or re.fullmatch(r"\w+%2==0|\w+&1==0", c_) and \
+                        ev_len(cx, kids(strip(kids(cn)[0], casts=True))[0], is_count, parity) is not None:
+                    feasible = feasible and ((parity == 0) == truth)
                     continue
-                # length guards such as (lhsz > 0) / (count > 1)
-                cn = strip(kids(a)[0])
+                if re.fullmatch(r"\S+(->|\.)count(%2|&1)(!=0|==1)?", c_):
+                    feasible = feasible and ((parity == 1) == truth)
+                    continue
+                # length guards such as (lhsz > 0) / (count > 1) / (lhsz == 0)
                 if cn["kind"] == "BinaryOperator" and cn.get("opcode") in (">", ">=", "<", "<=", "==", "!="):
                     l_, r__ = ev_len(cx, kids(cn)[0], is_count, parity), ev_len(cx, kids(cn)[1], is_count, parity)
                     if l_ is not None and r__ is not None:
                         op = cn["opcode"]
-                        if not in_then:
+                        if not truth:
                             op = {"<": ">=", "<=": ">", ">": "<=", ">=": "<", "==": "!=", "!=": "=="}[op]
                         d_ = l_ - r__
                         if op == ">":
@@ -1074,18 +1081,10 @@ def rules(rep, m):
                             facts = facts.add_le0(d_ + Poly.const(1), "not " + render(cn))
                         elif op == "<=":
                             facts = facts.add_le0(d_, "not " + render(cn))
-            # a conditional expression guarding the call: (len > 0) ? median(len, ...) : other
-            for a in inv.enclosing_chain(f, c):
-                if a["kind"] == "ConditionalOperator" and any(y is c for y in walk(kids(a)[1])):
-                    cn = strip(kids(a)[0])
-                    if cn["kind"] == "BinaryOperator" and cn.get("opcode") in (">", ">=", "!="):
-                        l_, r__ = ev_len(cx, kids(cn)[0], is_count, parity), ev_len(cx, kids(cn)[1], is_count, parity)
-                        if l_ is not None and r__ is not None:
-                            d_ = l_ - r__
-                            if cn["opcode"] in (">", "!="):
-                                facts = facts.add_le0(Poly.const(1) - d_, render(cn))
-                            else:
-                                facts = facts.add_le0(d_.scale(-1), render(cn))
+                        elif op == "!=" and r__.is_const() and r__.get((), 0) == 0:
+                            facts = facts.add_le0(Poly.const(1) - l_, render(cn))       # unsigned and not 0
+                        elif op == "==":
+                            facts = facts.add_le0(d_, render(cn)).add_le0(d_.scale(-1), render(cn))
             if not feasible or not facts.feasible():
                 continue
             ln = ev_len(cx, kids(c)[1], is_count, parity)
